@@ -15,7 +15,7 @@ AllNone(b) == \A f \in 1..12 : b.outs[f][1] = -1
 \* (matcher/src/lib.rs, the `(Utf32Str::Ascii(_), Utf32Str::Unicode(_)) => None` arms).
 KfAsciiHayCodepointNeedle(r, x) ==
   LET b == r.blocks[x[3]] IN
-  /\ x[1] \in {"C01", "C05"}
+  /\ x[1] \in {"C01", "C04", "C05"}
   /\ b.rh = "A" /\ b.rn = "U" /\ AllNone(b)
 
 KnownId(r, x) ==
